@@ -1,6 +1,7 @@
 package main
 
 import (
+	"errors"
 	"fmt"
 	"io"
 	"reflect"
@@ -21,6 +22,7 @@ type decOut struct {
 	Panic    string      // non-empty: the call panicked (or hung)
 	ErrClass int         // 0 nil, 1 error, 2 IntegrityError
 	ErrText  string      // implementation: err.Error(); model: error constructor
+	ErrChain string      // implementation: dynamic type and text of every error in the Unwrap chain
 	Pos      int         // bytes consumed from the reader
 	Hdr      string      // canonical header ("-" when not reported)
 	Files    []string    // canonical Files ("nil" entries for absent ones)
@@ -34,6 +36,22 @@ func (o decOut) observable() string {
 		return "PANIC"
 	}
 	return fmt.Sprintf("err=%d pos=%d hdr=%s files=%s", o.ErrClass, o.Pos, o.Hdr, strings.Join(o.Files, " ## "))
+}
+
+// errChain renders everything a caller can learn from the error value: dynamic type and text of err and of every
+// error errors.Unwrap reaches.
+func errChain(err error) string {
+	var parts []string
+	for e, i := err, 0; e != nil && i < 16; e, i = errors.Unwrap(e), i+1 {
+		parts = append(parts, fmt.Sprintf("%T{%s}", e, e.Error()))
+	}
+	return strings.Join(parts, " <- ")
+}
+
+// withError is the observable extended by the error value (text and chain): what C09 compares between a call run
+// alone and the same call run beside others.
+func (o decOut) withError() string {
+	return o.observable() + " errtext=" + o.ErrText + " errchain=" + o.ErrChain
 }
 
 type world struct {
@@ -121,7 +139,7 @@ func implDecode(entry string, o optSet, rs readerSpec) (out decOut) {
 			res.Raw = []*fit.File{f}
 			res.Hdr = "-"
 			if err != nil {
-				res.ErrText = err.Error()
+				res.ErrText, res.ErrChain = err.Error(), errChain(err)
 			}
 		case "C":
 			fs, err := fit.DecodeChained(rd, o.options()...)
@@ -132,14 +150,14 @@ func implDecode(entry string, o optSet, rs readerSpec) (out decOut) {
 			res.Raw = fs
 			res.Hdr = "-"
 			if err != nil {
-				res.ErrText = err.Error()
+				res.ErrText, res.ErrChain = err.Error(), errChain(err)
 			}
 		case "I", "J":
 			err := fit.CheckIntegrity(rd, entry == "J")
 			res.ErrClass = errClass(err)
 			res.Hdr = "-"
 			if err != nil {
-				res.ErrText = err.Error()
+				res.ErrText, res.ErrChain = err.Error(), errChain(err)
 			}
 		case "H":
 			h, err := fit.DecodeHeader(rd)
@@ -148,7 +166,7 @@ func implDecode(entry string, o optSet, rs readerSpec) (out decOut) {
 			if err == nil {
 				res.Hdr = canonHeader(h)
 			} else {
-				res.ErrText = err.Error()
+				res.ErrText, res.ErrChain = err.Error(), errChain(err)
 				if !reflect.DeepEqual(h, fit.Header{}) {
 					res.Hdr = "nonzero-header-with-error"
 				}
@@ -162,7 +180,7 @@ func implDecode(entry string, o optSet, rs readerSpec) (out decOut) {
 				tmp := &fit.File{Header: h, FileId: fid}
 				res.Files = []string{canonFile(tmp)}
 			} else {
-				res.ErrText = err.Error()
+				res.ErrText, res.ErrChain = err.Error(), errChain(err)
 			}
 		}
 		res.Pos = sr.pos
